@@ -16,7 +16,7 @@ LEVEL_TEXT = (
     'offers Drop only on a lossy network and Deliver only to existing actors, and at most the head of '
     'each ordered flow. Agreement of len()/iter_all() counts is arithmetic and is not decided.')
 
-FLOORS = {'C07-R1': 4, 'C07-R2': 7, 'C07-R3': 6, 'C07-R4': 4, 'C07-R5': 4, 'C07-R6': 3, 'C07-R7': 5}
+FLOORS = {'C07-R1': 4, 'C07-R2': 7, 'C07-R3': 6, 'C07-R4': 4, 'C07-R5': 4, 'C07-R6': 3, 'C07-R7': 5, 'C06-R3': 10}
 
 NET = 'actor::network::Network::<Msg>::'
 ORDER_BREAKING = ('VecDeque::swap_remove_back', 'VecDeque::swap_remove_front', 'Vec::swap_remove',
@@ -506,6 +506,13 @@ def run(ctx):
                       'process_commands only to send; no arm overwrites the network')
     with ctx.rule('C07-R7', 'who changes the network'):
         r7_who_changes_the_network(ctx, F)
+    # "messages disappear undelivered only through explicit drop steps": a message that was sent is in the network -
+    # whatever its destination (unknown id, crashed actor)
+    import c06
+    ctx.doc('C06-R3', 'process_commands: every Command::Send enters the network (Network::send on every path of the '
+                      'Send arm), in emission order')
+    with ctx.rule('C06-R3', 'process_commands'):
+        c06.r3_commands(ctx, F)
 
 
 def r6_iter_multiplicity(ctx, F, rule='C07-R6'):
